@@ -499,3 +499,101 @@ def resolved(finfo, e, depth=3):
   for d in defs:
     out.extend(resolved(finfo, d, depth - 1))
   return out
+
+
+def quantifier_loops(g):
+  """Early-return loops of the canonical quantifier shape (core C8 turns
+  `return any/all(...)` into it as well):
+
+      for x in IT:            ->  dict(kind='any'|'all', loop=<for node>,
+        if <conds>: return K        iter=IT, target=x,
+      return not K                  conds=[(atom expr, polarity), ...])
+
+  conds are the test atoms (with the polarity of the edge taken) that dominate
+  the inner return and lie inside the loop."""
+  out = []
+  for lp in [n for n in g.nodes if n.kind == 'for']:
+    body = lp.succ('iter')
+    if body is None:
+      continue
+    inside = [body] + g.reach([body], avoid=lambda n: n is lp)
+    inner = [n for n in inside if isinstance(n.ast, ast.Return) and isinstance(
+        n.ast.value, ast.Constant) and isinstance(n.ast.value.value, bool)]
+    done = lp.succ('done')
+    after = [done] + g.reach([done], avoid_edge=lambda a, l, b: l == 'exc') \
+        if done is not None else []
+    tail = [n for n in after if isinstance(n.ast, ast.Return)]
+    if len(inner) != 1 or not tail or not all(
+        isinstance(t.ast.value, ast.Constant) and isinstance(
+            t.ast.value.value, bool) for t in tail):
+      continue
+    k = inner[0].ast.value.value
+    if any(t.ast.value.value == k for t in tail):
+      continue
+    conds = []
+    for t in inside:
+      if t.kind != 'test':
+        continue
+      for pol in ('T', 'F'):
+        if g.dominated_by_edge(inner[0], lambda s, l, d, _t=t, _p=pol:
+                               s is _t and l == _p):
+          conds.append((t.ast, pol == 'T'))
+    out.append(dict(kind='any' if k else 'all', loop=lp, iter=lp.ast.iter,
+                    target=lp.ast.target, conds=conds, inner=inner[0]))
+  return out
+
+
+def flow_graph(finfo):
+  """Flow-insensitive "is built from" relation between the local names of a
+  function: name -> set of expressions that flow into it (assignments, stores
+  through it such as d[k] = v / d.append(v) / d.update(v), loop targets)."""
+  g = {}
+
+  def add(name, expr):
+    g.setdefault(name, []).append(expr)
+  for n in ast.walk(finfo.node):
+    if isinstance(n, ast.Assign):
+      for t in n.targets:
+        for x in core._flatten_target(t):  # pylint: disable=protected-access
+          if isinstance(x, ast.Name):
+            add(x.id, n.value)
+          elif isinstance(x, (ast.Subscript, ast.Attribute)):
+            base = x
+            while isinstance(base, (ast.Subscript, ast.Attribute)):
+              base = base.value
+            if isinstance(base, ast.Name):
+              add(base.id, n.value)
+    elif isinstance(n, (ast.AnnAssign, ast.AugAssign)) and isinstance(
+        n.target, ast.Name) and n.value is not None:
+      add(n.target.id, n.value)
+    elif isinstance(n, (ast.For, ast.comprehension)):
+      for x in core._flatten_target(n.target):  # pylint: disable=protected-access
+        if isinstance(x, ast.Name):
+          add(x.id, n.iter)
+    elif isinstance(n, ast.With):
+      for i in n.items:
+        if isinstance(i.optional_vars, ast.Name):
+          add(i.optional_vars.id, i.context_expr)
+    elif isinstance(n, ast.NamedExpr) and isinstance(n.target, ast.Name):
+      add(n.target.id, n.value)
+    elif isinstance(n, ast.Call) and isinstance(n.func, ast.Attribute) and \
+        n.func.attr in core.MUTATORS and isinstance(n.func.value, ast.Name):
+      for a in n.args:
+        add(n.func.value.id, a)
+  return g
+
+
+def sources_of(finfo, expr, graph=None):
+  """(names, expressions) that `expr` is transitively built from."""
+  graph = graph if graph is not None else flow_graph(finfo)
+  names, exprs = set(), [expr]
+  work = [expr]
+  while work:
+    e = work.pop()
+    for x in ast.walk(e):
+      if isinstance(x, ast.Name) and x.id not in names:
+        names.add(x.id)
+        for d in graph.get(x.id, []):
+          exprs.append(d)
+          work.append(d)
+  return names, exprs
